@@ -380,6 +380,79 @@ func checkC11(e *Engine, r *Report) {
 		r.Check(okNew && okSlice, "autoEmitEventsFromSdkEvents › only events emitted since the count", e.Pos(auto.Pos()), "events[originalEventCounts:], error if none", "logs are not derived from exactly the newly emitted module events")
 	})
 
+	r.Rule("R5", "PROVENANCE", "staking views answer for the address(es) they are asked about: in every read-only staking executor with address inputs, each address input feeds a native staking / distribution / bank read (directly or through an in-package helper) on the executor's context, and the value returned derives from those reads", 6, func() {
+		abis := embeddedABIs(e)["StakingCpcInfo"]
+		isNative := func(c ssa.CallInstruction) bool {
+			fo := calleeObj(c)
+			if fo == nil || fo.Pkg() == nil {
+				return false
+			}
+			p := fo.Pkg().Path()
+			if strings.HasPrefix(p, SDK+"/x/staking") || strings.HasPrefix(p, SDK+"/x/distribution") || strings.HasPrefix(p, SDK+"/x/bank") {
+				return true
+			}
+			return p == pkgCpcKeeper && recvNamed(fo) != nil && strings.HasPrefix(recvNamed(fo).Obj().Name(), "stakingCustomPrecompiledContract") && fo.Name() != "Execute"
+		}
+		for _, x := range executorCensus(e) {
+			if !strings.HasPrefix(x.Name(), "stakingCustomPrecompiledContractRo") {
+				continue
+			}
+			fn := x.Execute
+			var method string
+			for _, c := range callsIn(fn, false, func(c ssa.CallInstruction) bool { return isMethodNamed(c, "UnpackMethodInput") }) {
+				method, _ = constString(c.Common().Args[1])
+			}
+			ab, ok := abis[method]
+			if !ok {
+				continue
+			}
+			var addrIdx []int
+			for k, in := range ab.Inputs {
+				if in.Type == "address" {
+					addrIdx = append(addrIdx, k)
+				}
+			}
+			if len(addrIdx) == 0 {
+				continue
+			}
+			natives := callsIn(fn, false, isNative)
+			okIn := true
+			for _, k := range addrIdx {
+				fed := false
+				for _, c := range natives {
+					for _, a := range c.Common().Args {
+						if sliceFrom(a).Has(func(v ssa.Value) bool { kk, isI := isIpsElem(v); return isI && kk == k }) {
+							fed = true
+						}
+					}
+				}
+				if !fed {
+					okIn = false
+				}
+			}
+			okOut := len(successReturns(fn)) > 0
+			for _, ret := range successReturns(fn) {
+				sl := sliceFrom(ret.Results[0])
+				der := false
+				for _, c := range natives {
+					if v, isV := c.(ssa.Value); isV && sl.HasValue(v) {
+						der = true
+					}
+				}
+				// constant-zero short cuts (no delegation ⇒ 0) are fine when guarded by a native result
+				if !der {
+					if cc, _ := callOf(ret.Results[0]); cc != nil && isCallTo(cc, CallSpec{pkgCpcUtils, "", "AbiEncodeUint256"}) {
+						der = true
+					}
+				}
+				if !der {
+					okOut = false
+				}
+			}
+			r.Check(okIn && okOut, "view › "+x.Name(), e.Pos(fn.Pos()), method+": every address input feeds a native read; the result derives from native reads", "the view does not read native staking/distribution/bank state for the address(es) it was asked about, or returns a value that does not derive from those reads")
+		}
+	})
+
 	r.Rule("R4", "TABLE-AGREE", "every field of abi.StakingMessage / abi.WithdrawRewardMessage is part of the EIP-712 typed data (a Types entry and a Message entry under its JSON name, the Message value derived from that field); the domain binds the chain id parameter; VerifySignature compares the recovered address with the expected one over the hash of tm.ToTypedData(chainId)", 12, func() {
 		for _, tn := range []string{"StakingMessage", "WithdrawRewardMessage"} {
 			named := e.Named(pkgCpcAbi, tn)
